@@ -746,6 +746,10 @@ def build_unit(name: str, variant: Optional[str] = None, canary: bool = False) -
   if bad:
     raise Undecided('unit %s: spec.rs may not contain assumptions: %s' % (name, bad))
   assumptions = scan_assumptions('%s/prelude.rs' % name, prelude)
+  for c in contracts.values():
+    if canary: break
+    for anchor, ptext in c.proofs:
+      assumptions += scan_assumptions('%s/%s @proof %s of %s' % (name, cfile, anchor[:40], c.path), ptext)
 
   rewrites: List[RewriteLog] = []
   items_meta: List[dict] = []
